@@ -164,6 +164,30 @@ theorem int_bounds_exact (k : IntKind) (n : Int) (hk : k ≠ .int ∧ k ≠ .uin
   cases k <;>
     simp [NumOK, GeOpt, LeOpt, fmtLo, fmtHi, kindFmt, kindLo, kindHi, intLo, intHi] at h hk ⊢ <;> omega
 
+/-- The validator's `int64` format check (`f.Validate(int64(value))`, which cannot reject a float64 beyond ±2^63) and
+the exact reading used by `Sat` agree on every integer of the int64 range — in particular on every encoding of an
+`int`/`int64` value; the differential run compares with the validator as built. -/
+theorem int64_format_exact_in_range (ty : String) (lo hi : Option Int) (n : Int)
+    (h : -9223372036854775808 ≤ n ∧ n ≤ 9223372036854775807) :
+    NumOK ty "int64" lo hi n 0 ↔ NumOK ty "" lo hi n 0 := by
+  obtain ⟨h1, h2⟩ := h
+  simp only [NumOK, GeOpt, LeOpt, fmtLo, fmtHi]
+  constructor
+  · rintro ⟨h3, h4⟩
+    refine ⟨?_, h4⟩
+    rcases h3 with h3 | h3 | ⟨h3, h5, _, _⟩
+    · exact Or.inl h3
+    · exact Or.inr (Or.inl h3)
+    · exact Or.inr (Or.inr ⟨h3, h5, by simp, by simp⟩)
+  · rintro ⟨h3, h4⟩
+    refine ⟨?_, h4⟩
+    rcases h3 with h3 | h3 | ⟨h3, h5, _, _⟩
+    · exact Or.inl h3
+    · exact Or.inr (Or.inl h3)
+    · refine Or.inr (Or.inr ⟨h3, h5, ?_, ?_⟩)
+      · intro l hl; simp at hl; subst hl; omega
+      · intro l hl; simp at hl; subst hl; omega
+
 /-- the check the driver performs on a case implies the injectivity hypothesis of `gen_sound_partial` -/
 theorem tnInj_of_check (Δ : Decls) (o : Opts) (h : dupNames (Δ.map (fun d => typeName o d.1)) = false) :
     TnInj Δ (typeName o) := by
